@@ -257,6 +257,65 @@ theorem asyncssh_pinned_no_offer (hmac : String → String → String) (imp : St
   order_protects .asyncssh (asyncsshOrder true false) (by decide) _ (by simp [cfgOf, hs]) (by simp [cfgOf, hk])
     (by simpa [cfgOf] using hl) (untrusted_of_entries hmac imp es host serverKey env hun)
 
+/-! ### histories: retries on one transport object -/
+
+/-- **no_offer_in_any_attempt**: take ANY set of paths through `open()` that all pass the static check.
+    For every initial transport state, every history of attempts on the same object (with or without
+    `close()` in between, each attempt taking any of the paths — however the state left behind steers
+    it — under its own known_hosts content and server behaviour): every attempt made with strict on,
+    handshake ok, usable private key, and a lookup that is empty or yields another / unusable key ends
+    in ScrapliAuthenticationFailed with NO key / password offered.  Induction over the attempt list. -/
+theorem no_offer_in_any_attempt (lib : Lib) (paths : List (List (Call × Bool)))
+    (hsafe : ∀ p ∈ paths, safeOrder p = true) :
+    ∀ (hist : List Attempt) (st : TState), (∀ a ∈ hist, a.path ∈ paths) →
+      ∀ x ∈ hist.zip (runHistory lib st hist),
+        x.1.cfg.strict = true → x.1.cfg.kexOK = true → (x.1.cfg.hasKey = true → x.1.cfg.keyLoads = true) →
+        (x.1.cfg.found = false ∨ x.1.cfg.equal = false) → protectedTrace x.2 = true := by
+  intro hist
+  induction hist with
+  | nil => intro st _ x hx; simp [runHistory] at hx
+  | cons a rest ih =>
+    intro st hp x hx hs hk hl hu
+    simp only [runHistory, List.zip_cons_cons, List.mem_cons] at hx
+    rcases hx with rfl | hx
+    · exact order_protects lib a.path (hsafe _ (hp a (List.mem_cons_self ..))) a.cfg hs hk hl hu
+    · exact ih _ (fun b hb => hp b (List.mem_cons_of_mem _ hb)) x hx hs hk hl hu
+
+/-- GENERATED DATA: every path through each `open()` of the current source passes the static check
+    (the verification dominates the credential-carrying call), and each `open()` has exactly the one
+    path the model was written against -/
+theorem open_paths_checked :
+    (paramikoOpenPaths.all safeOrder) = true ∧ (ssh2OpenPaths.all safeOrder) = true ∧
+    (asyncsshOpenPaths.all safeOrder) = true ∧
+    paramikoOpenPaths = [paramikoOpenCalls] ∧ ssh2OpenPaths = [ssh2OpenCalls] ∧
+    asyncsshOpenPaths = [asyncsshOpenCalls] := by decide
+
+/-- the history theorem for the three transports as they are in the source -/
+theorem no_offer_in_any_attempt_current (lib : Lib) (hist : List Attempt) (st : TState)
+    (hp : ∀ a ∈ hist, a.path ∈ (match lib with
+      | .paramiko => paramikoOpenPaths | .ssh2 => ssh2OpenPaths | .asyncssh => asyncsshOpenPaths)) :
+    ∀ x ∈ hist.zip (runHistory lib st hist),
+      x.1.cfg.strict = true → x.1.cfg.kexOK = true → (x.1.cfg.hasKey = true → x.1.cfg.keyLoads = true) →
+      (x.1.cfg.found = false ∨ x.1.cfg.equal = false) → protectedTrace x.2 = true := by
+  have hall : ∀ p ∈ (match lib with
+      | .paramiko => paramikoOpenPaths | .ssh2 => ssh2OpenPaths | .asyncssh => asyncsshOpenPaths),
+      safeOrder p = true := by
+    have h := open_paths_checked
+    cases lib <;> simp only [] <;> intro p hp'
+    · exact List.all_eq_true.mp h.1 p hp'
+    · exact List.all_eq_true.mp h.2.1 p hp'
+    · exact List.all_eq_true.mp h.2.2.1 p hp'
+  exact no_offer_in_any_attempt lib _ hall hist st hp
+
+/-- why EVERY path matters: a path that reaches `_authenticate` without `_verify_key` (a retry that
+    reuses the session an earlier, correctly failed attempt left behind) offers the password -/
+example : safeOrder [(.authenticate, false), (.openChannel, false)] = false ∧
+    runHistory .paramiko {}
+      [{ closeBefore := false, path := paramikoOrder, cfg := leakCfg },
+       { closeBefore := false, path := [(.authenticate, false), (.openChannel, false)], cfg := leakCfg }] =
+    [[Ev.kex, Ev.lookup true false, Ev.verifyFail, Ev.raise Exc.authenticationFailed],
+     [Ev.offerPassword, Ev.openSession]] := by decide
+
 /-! ### system transport -/
 
 /-- the literal fragments regenerated from `_build_open_cmd` are OpenSSH's option names / values -/
